@@ -70,6 +70,18 @@ def unitary_check(c, api, t, tags, what='unitary'):
     return U
 
 
+def apply_tt_operator(cores, V):
+    """(TT operator) @ V for a batch V of shape (prod col_dims, k), core by core (nothing of size N x N is formed)"""
+    k = V.shape[1]
+    T = V.reshape(1, V.shape[0], 1, k)  # (bond, remaining input modes, finished output modes, batch)
+    for cr in cores:
+        r, m, nn, r2 = cr.shape
+        rest = T.shape[1] // nn
+        T = T.reshape(r, nn, rest, T.shape[2], k)
+        T = np.einsum('amnb,anRMk->bRMmk', cr, T).reshape(r2, rest, -1, k)
+    return T.reshape(-1, k)
+
+
 def bitrev_dft(n):
     N = 2 ** n
     F = np.exp(2j * np.pi * np.outer(np.arange(N), np.arange(N)) / N) / np.sqrt(N)
@@ -126,6 +138,9 @@ class Model(probe.Contract):
         c.check(self.api, 'one_gate_group_per_qubit', ok, ['n=%d' % n], prop=P)
         if not ok:
             return
+        if n > 8:
+            self.qft_by_action(c, G, n, sign)
+            return
         prod = np.eye(2 ** n, dtype=complex)
         for k, g in enumerate(G):
             U = unitary_check(c, self.api, g, ['n=%d' % n, 'group=%s' % ('first' if k == 0 else 'last' if k == n - 1 else 'inner')], 'gate_group_unitary')
@@ -135,6 +150,29 @@ class Model(probe.Contract):
             want = np.conj(want)
         err = float(np.max(np.abs(prod - want)))
         c.check(self.api, 'groups_multiply_to_bit_reversed_dft', err <= 1e-10, ['n=%d' % n], {'n': n, 'err': err}, prop=P)
+        c.sig(self.api, n)
+
+    def qft_by_action(self, c, G, n, sign):
+        """larger registers: the gate groups are applied, in TT form, to a batch of random complex vectors and unit vectors; every group
+        must preserve the Gram matrix of the batch (unitarity on the sample) and the product must act as the bit-reversed DFT (FFT)"""
+        N = 2 ** n
+        rs = np.random.default_rng(n * 7919 + (1 if sign > 0 else 2))
+        V = rs.standard_normal((N, 12)) + 1j * rs.standard_normal((N, 12))
+        E = np.zeros((N, 4), dtype=complex)
+        for col, j in enumerate([0, 1, N - 1, int(rs.integers(0, N))]):
+            E[j, col] = 1.0
+        V = np.concatenate([V, E], axis=1)
+        W = V
+        for k, g in enumerate(G):
+            W2 = apply_tt_operator(g.cores, W)
+            err = float(np.max(np.abs(W2.conj().T @ W2 - W.conj().T @ W))) / N
+            c.check(self.api, 'gate_group_unitary', err <= 1e-10, ['n=%d' % n, 'group=%s' % ('first' if k == 0 else 'last' if k == n - 1 else 'inner'), 'by_action_on_sample'],
+                    {'n': n, 'err': err}, prop=P)
+            W = W2
+        rev = np.array([int(np.binary_repr(i, width=n)[::-1], 2) for i in range(N)])
+        want = (np.fft.ifft(V, axis=0) * np.sqrt(N))[rev, :] if sign > 0 else (np.fft.fft(V, axis=0) / np.sqrt(N))[rev, :]
+        err = float(np.max(np.abs(W - want))) / max(1.0, float(np.max(np.abs(want))))
+        c.check(self.api, 'groups_multiply_to_bit_reversed_dft', err <= 1e-10, ['n=%d' % n, 'by_action_on_sample'], {'n': n, 'err': err}, prop=P)
         c.sig(self.api, n)
 
     def m_iqft(self, c, G, a, kw):
